@@ -605,7 +605,12 @@ pub(crate) async fn execute_schema(agent: &Agent, statements: Vec<String>) -> ey
 
     // conn.trace(None);
 
-    apply_res?;
+    if let Err(e) = apply_res {
+        // the rolled back DDL is still reflected in what cr-sqlite cached for this
+        // connection (tables it saw created or altered): don't let the next writer reuse it
+        conn.discard();
+        return Err(e);
+    }
 
     *schema_write = new_schema;
 
